@@ -16,7 +16,7 @@ use crate::talloc::{self, Ev};
 use std::cell::Cell;
 use std::sync::atomic::{AtomicBool, AtomicUsize, Ordering::SeqCst};
 use std::sync::{Condvar, Mutex};
-use triomphe::{Arc, UniqueArc};
+use triomphe::{Arc, OffsetArc, UniqueArc};
 
 const CTL: usize = usize::MAX;
 const MAGIC: u64 = 0x5CED_0A11_FE5A_A55A;
@@ -255,18 +255,53 @@ fn uninstall() {
     }
 }
 
+/// a handle as the worker holds it between operations: an `Arc`, or the same reference as an `OffsetArc` (its clone
+/// and drop go through `OffsetArc::clone` / `OffsetArc::drop`; conversions do not touch the count)
+enum Hd<T> {
+    A(Arc<T>),
+    O(OffsetArc<T>),
+}
+
+impl<T> Hd<T> {
+    fn wrap(a: Arc<T>, offset: bool) -> Hd<T> {
+        if offset {
+            Hd::O(Arc::into_raw_offset(a))
+        } else {
+            Hd::A(a)
+        }
+    }
+    fn into_arc(self) -> Arc<T> {
+        match self {
+            Hd::A(a) => a,
+            Hd::O(o) => Arc::from_raw_offset(o),
+        }
+    }
+    fn dup(&self) -> Hd<T> {
+        match self {
+            Hd::A(a) => Hd::A(a.clone()),
+            Hd::O(o) => Hd::O(o.clone()),
+        }
+    }
+    fn ptr(&self) -> *const T {
+        match self {
+            Hd::A(a) => &**a as *const T,
+            Hd::O(o) => &**o as *const T,
+        }
+    }
+}
+
 struct WState<T> {
-    handles: Vec<Arc<T>>,
+    handles: Vec<Hd<T>>,
     unique: Option<UniqueArc<T>>,
     /// a handle whose `get_mut` / `make_mut` handed out `&mut T` (kept as a raw pointer while the grant lasts)
     mut_handle: Option<(Arc<T>, *mut T)>,
-    pending: Option<Arc<T>>,
+    pending: Option<Hd<T>>,
     moved: Vec<T>,
     /// handles that `make_mut` redirected to a fresh allocation of their own
     others: Vec<Arc<T>>,
 }
 
-fn worker<T: Pay>(id: usize) {
+fn worker<T: Pay>(id: usize, offset: bool) {
     WID.with(|w| w.set(id));
     let mut st: WState<T> = WState { handles: Vec::with_capacity(64), unique: None, mut_handle: None, pending: None, moved: Vec::with_capacity(16), others: Vec::with_capacity(16) };
     post(Msg::Done(Res::Unit));
@@ -288,7 +323,7 @@ fn worker<T: Pay>(id: usize) {
             }
             Cmd::Clone => match st.handles.first() {
                 Some(h) => {
-                    let c = h.clone();
+                    let c = h.dup();
                     st.handles.push(c);
                     Res::Unit
                 }
@@ -296,7 +331,7 @@ fn worker<T: Pay>(id: usize) {
             },
             Cmd::Read => {
                 let p: Option<*const T> = match (st.handles.first(), st.unique.as_ref(), st.mut_handle.as_ref()) {
-                    (Some(h), _, _) => Some(&**h as *const T),
+                    (Some(h), _, _) => Some(h.ptr()),
                     (None, Some(u), _) => Some(&**u as *const T),
                     (None, None, Some((_, p))) => Some(*p as *const T),
                     _ => None,
@@ -322,11 +357,11 @@ fn worker<T: Pay>(id: usize) {
             },
             Cmd::Ungrant => match (st.unique.take(), st.mut_handle.take()) {
                 (Some(u), _) => {
-                    st.handles.push(u.shareable());
+                    st.handles.push(Hd::wrap(u.shareable(), offset));
                     Res::Unit
                 }
                 (None, Some((h, _))) => {
-                    st.handles.push(h);
+                    st.handles.push(Hd::wrap(h, offset));
                     Res::Unit
                 }
                 _ => Res::Missing,
@@ -343,18 +378,18 @@ fn worker<T: Pay>(id: usize) {
                         Res::Value
                     }
                     Err(a) => {
-                        st.handles.push(a);
+                        st.handles.push(Hd::wrap(a, offset));
                         Res::NotGranted
                     }
                 },
                 _ => Res::Missing,
             },
             Cmd::Take => match st.handles.pop() {
-                Some(h) => Res::Handle(Arc::into_raw(h) as usize),
+                Some(h) => Res::Handle(Arc::into_raw(h.into_arc()) as usize),
                 None => Res::Missing,
             },
             Cmd::Give(h) => {
-                st.handles.push(unsafe { Arc::from_raw(h as *const T) });
+                st.handles.push(Hd::wrap(unsafe { Arc::from_raw(h as *const T) }, offset));
                 Res::Unit
             }
             Cmd::Reserve => match st.handles.pop() {
@@ -372,7 +407,7 @@ fn worker<T: Pay>(id: usize) {
                         if kind >= 10 {
                             // further entry points (free schedules only)
                             let r = std::panic::catch_unwind(std::panic::AssertUnwindSafe(|| {
-                                let mut h = h;
+                                let mut h = h.into_arc();
                                 match kind {
                                     10 => {
                                         let before = Arc::heap_ptr(&h) as *const u8 as usize;
@@ -403,7 +438,7 @@ fn worker<T: Pay>(id: usize) {
                                         match res {
                                             Res::Granted => st.mut_handle = Some((h, p)),
                                             Res::Cloned => st.others.push(h),
-                                            _ => st.handles.push(h),
+                                            _ => st.handles.push(Hd::wrap(h, offset)),
                                         }
                                     }
                                     post(Msg::Done(res));
@@ -417,12 +452,12 @@ fn worker<T: Pay>(id: usize) {
                                 drop(h);
                                 (Res::Unit, None, None, None)
                             }
-                            7 => match Arc::try_unique(h) {
+                            7 => match Arc::try_unique(h.into_arc()) {
                                 Ok(u) => (Res::Granted, Some(u), None, None),
                                 Err(a) => (Res::NotGranted, None, Some(a), None),
                             },
                             _ => {
-                                let v = Arc::unwrap_or_clone(h);
+                                let v = Arc::unwrap_or_clone(h.into_arc());
                                 (Res::Value, None, None, Some(v))
                             }
                         }));
@@ -432,7 +467,7 @@ fn worker<T: Pay>(id: usize) {
                                     st.unique = Some(u);
                                 }
                                 if let Some(a) = a {
-                                    st.handles.push(a);
+                                    st.handles.push(Hd::wrap(a, offset));
                                 }
                                 if let Some(v) = v {
                                     st.moved.push(v);
@@ -829,6 +864,8 @@ fn run_case_t<T: Pay>(ops: &[Vec<u64>]) -> Vec<Vec<u64>> {
         Some(v) if v.len() >= 2 && v[0] == 199 && v[1] >= 1 && v[1] <= 8 => v[1] as usize,
         _ => return vec![vec![999]],
     };
+    // how workers hold their handles between operations: 0 Arc, 1 OffsetArc, 2 odd workers OffsetArc
+    let hk = ops.first().map_or(0, |v| if v.len() > 3 { v[3] } else { 0 });
     // the value under test, created by the controller (no gates)
     FREE_RUN.store(true, SeqCst);
     install();
@@ -851,7 +888,8 @@ fn run_case_t<T: Pay>(ops: &[Vec<u64>]) -> Vec<Vec<u64>> {
             let mut g = SH.lock().unwrap_or_else(|e| e.into_inner());
             g.as_mut().unwrap().turn = id;
         }
-        joins.push(std::thread::spawn(move || worker::<T>(id)));
+        let offset = hk == 1 || (hk == 2 && id % 2 == 1);
+        joins.push(std::thread::spawn(move || worker::<T>(id, offset)));
         let mut g = SH.lock().unwrap_or_else(|e| e.into_inner());
         loop {
             {
